@@ -63,6 +63,10 @@ def simulate_probe(p):
     import epgpy as epg
     seq = [prog.build_op(o) for o in p["ops"]] + [epg.ADC]
     opts = {"max_nstate": p["max_nstate"]} if p["max_nstate"] else {}
+    if p["init"] is not None and p.get("init_as_array"):
+        # simulate() builds the state matrix itself from a raw (2n+1)x3 array
+        f0, z0 = epg.simulate(seq, probe=["F0", "Z0"], init=np.array(p["init"], complex), density=p["pd"], **opts)
+        return complex(np.ravel(f0)[0]), complex(np.ravel(z0)[0])
     if p["init"] is not None:
         init = epg.StateMatrix(np.array(p["init"], complex), density=p["pd"])
     else:
@@ -83,7 +87,14 @@ def run(ctx):
     n = 100 if quick else 3000
     terms, kept = [], []
     for i in range(n):
-        p = prog.gen_program(ctx.rng, maxlen=10 if quick else 16)
+        if i % 4 == 3:
+            # stream focused on custom initial states handed to simulate() as raw arrays
+            p = prog.gen_program(ctx.rng, maxlen=5, kinds=["matrix", "shift", "shift", "scalar"], init_p=1.0,
+                                 nmax_p=0.0, global_nmax_p=0.0)
+            p["init_as_array"] = True
+        else:
+            p = prog.gen_program(ctx.rng, maxlen=10 if quick else 16)
+            p["init_as_array"] = ctx.rng.random() < 0.5
         try:
             snaps = prog.run_impl(p, inplace=True)
             f0, z0 = simulate_probe(p)
@@ -106,6 +117,14 @@ def run(ctx):
                 ctx.report("states differ from the DFT of independently simulated isochromats: " + why,
                            {"case": p, "states": snaps[-1][0]}, found_input=True,
                            signature={"oracle": prog.signature(p)[-1:]})
+            else:
+                ks, coef = bloch_oracle(p)
+                c = (coef.shape[0] - 1) // 2
+                e = max(abs(coef[c, 0] - f0), abs(coef[c, 2] - z0))
+                if e > 1e-9 * (1 + np.abs(coef).max()):
+                    ctx.report("simulate() F0/Z0 differ from the ensemble mean of the isochromats by %.3g" % e,
+                               {"case": p, "simulate": [str(f0), str(z0)], "ensemble_mean": [str(coef[c, 0]), str(coef[c, 2])]},
+                               found_input=True, signature={"oracle": "simulate-F0Z0"})
     verdicts, errors = ctx.run_bool_cases("corr", HEADER, terms, chunk=10)
     for e in errors:
         ctx.report("correspondence shard failed to evaluate", {"theorem_or_correspondence": "C01 correspondence (Cases)", "coq_output": e}, found_input=False)
@@ -177,6 +196,13 @@ def replay(ctx, rp):
         p = rp["case"]
         snaps = prog.run_impl(p, inplace=True)
         why = oracle_disagrees(p, snaps[-1]) if untruncated(p) else None
+        if not why and untruncated(p):
+            f0, z0 = simulate_probe(p)
+            ks, coef = bloch_oracle(p)
+            c = (coef.shape[0] - 1) // 2
+            e = max(abs(coef[c, 0] - f0), abs(coef[c, 2] - z0))
+            if e > 1e-9 * (1 + np.abs(coef).max()):
+                why = "simulate() F0/Z0 differ from the ensemble mean by %.3g" % e
         print("replay:", why or "no discrepancy with the isochromat oracle")
         return 1 if why else 0
     print("replay: not an input replay (%s)" % rp.get("what"))
